@@ -78,6 +78,32 @@ theorem envGet_mergeMaps (src dst : Env) (k : String) :
       · simp [h]
       · simp [h]
 
+/-! ### the structural equality test -/
+
+mutual
+theorem beqV_refl : ∀ v : V, beqV v v = true
+  | .null => by simp [beqV]
+  | .str s => by simp [beqV]
+  | .int i => by simp [beqV]
+  | .bool b => by simp [beqV]
+  | .seq xs => by simp [beqV, beqVL_refl xs]
+  | .map kvs => by simp [beqV, beqVM_refl kvs]
+theorem beqVL_refl : ∀ xs : List V, beqVL xs xs = true
+  | [] => by simp [beqVL]
+  | x :: xs => by simp [beqVL, beqV_refl x, beqVL_refl xs]
+theorem beqVM_refl : ∀ kvs : List (String × V), beqVM kvs kvs = true
+  | [] => by simp [beqVM]
+  | (k, x) :: rest => by simp [beqVM, beqV_refl x, beqVM_refl rest]
+end
+
+theorem beqOV_refl (o : Option V) : beqOV o o = true := by
+  cases o <;> simp [beqOV, beqV_refl]
+
+theorem ne_of_beqOV_false {a b : Option V} (h : beqOV a b = false) : a ≠ b := by
+  intro hab
+  subst hab
+  simp [beqOV_refl] at h
+
 /-! ### `decodeLocals` -/
 
 theorem evalLocals_append (fns : List (String × String)) (bs : List (List (String × E))) (b : List (String × E))
@@ -87,6 +113,16 @@ theorem evalLocals_append (fns : List (String × String)) (bs : List (List (Stri
   | nil =>
     simp only [List.nil_append, evalLocals]
     cases h : localsStep fns vars b <;> simp [h]
+  | cons b0 rest ih =>
+    simp only [List.cons_append, evalLocals]
+    cases localsStep fns vars b0 with
+    | none => simp
+    | some v => simp [ih]
+
+theorem evalLocals_append_list (fns : List (String × String)) (bs cs : List (List (String × E))) (vars : Env) :
+    evalLocals fns vars (bs ++ cs) = (evalLocals fns vars bs).bind fun e => evalLocals fns e cs := by
+  induction bs generalizing vars with
+  | nil => simp [evalLocals]
   | cons b0 rest ih =>
     simp only [List.cons_append, evalLocals]
     cases localsStep fns vars b0 with
@@ -147,6 +183,7 @@ theorem tmpl_single (fns : List (String × String)) (env : Env) (p : E) (v : V)
   | map kvs => simp [inlineE, isStrLit]
   | tmpl ps => simp [inlineE, isStrLit]
   | call f args => simp [inlineE, isStrLit]
+  | idx e k => simp [inlineE, isStrLit]
 
 mutual
 theorem eval_inline (fns : List (String × String)) (env : Env) :
@@ -163,6 +200,7 @@ theorem eval_inline (fns : List (String × String)) (env : Env) :
     | none => simp [evalE, h, envGet_nil]
     | some v => simp [evalE, h, eval_quote]
   | .call f args => by simp [inlineE, evalE, eval_inlineL fns env args]
+  | .idx e k => by simp [inlineE, evalE, eval_inline fns env e, eval_inline fns env k]
   | .tmpl ps => by
     simp only [inlineE, evalE, eval_inlineL fns env ps]
     cases hvs : evalL fns env ps with
